@@ -525,6 +525,31 @@ def m_bytearray(it, args, kw):
     raise Unsupported("bytearray(symbolic)")
 
 
+@model(bytearray.decode, bytes.decode)
+def m_bdecode(it, args, kw):
+    b = args[0]
+    enc = args[1] if len(args) > 1 else kw.get("encoding", "utf-8")
+    if not isinstance(b, SByteList):
+        return it.call_real(type(b).decode, list(args), kw)
+    if enc not in ("ascii", "utf-8", "utf8", "latin-1"):
+        raise Unsupported(f"decode({enc})")
+    chars = []
+    for x in b:
+        if isinstance(x, int):
+            if x >= 128 and enc != "latin-1":
+                if enc == "ascii":
+                    it.py_raise(UnicodeDecodeError, "ascii", b"", 0, 1, "ordinal not in range(128)")
+                raise Unsupported("utf-8 decode of non-ASCII byte")
+            chars.append(x)
+        else:
+            if enc != "latin-1" and not it.decide(x.t < 128):
+                if enc == "ascii":
+                    it.py_raise(UnicodeDecodeError, "ascii", b"", 0, 1, "ordinal not in range(128)")
+                raise Unsupported("utf-8 decode of non-ASCII byte")
+            chars.append(x.t)
+    return mk_str(chars)
+
+
 # ------------------------------------------------------------------ str methods
 @model(str.join)
 def m_join(it, args, kw):
@@ -900,6 +925,12 @@ def i_sym_int(it, args, kw):
     name = args[0]
     lo = args[1] if len(args) > 1 else kw.get("lo")
     hi = args[2] if len(args) > 2 else kw.get("hi")
+    if it.float_mode == "fp" and lo is not None and hi is not None and -2 ** 62 < lo and hi < 2 ** 62:
+        # bit-vector backed (keeps int<->float conversions inside the BV/FP theories)
+        bv = z3.BitVec(f"in_{name}", 64)
+        _register_input(it, name, "bvint", bv)
+        it.ex.assume(z3.And(bv >= lo, bv <= hi))
+        return _reg_value(it, name, m_num.bv_int(it, bv))
     t = z3.Int(f"in_{name}")
     _register_input(it, name, "int", t)
     if lo is not None:
@@ -933,6 +964,8 @@ def i_sym_str(it, args, kw):
                 else:
                     rngs.append([k, k])
             it.ex.add_fact(z3.Or(*[z3.And(c >= a, c <= b) if a != b else c == a for a, b in rngs]))
+            if codes and codes[-1] < 128:
+                it.ex.ascii_chars.add(c.get_id())
     _register_input(it, name, "str", chars)
     return _reg_value(it, name, SStr(chars) if n else "")
 
